@@ -37,7 +37,11 @@ type Case struct {
 	KillRefused  bool // the master refuses the KILL calls (HTTP 503): the destroy cannot be honoured
 	PreFault     string // "" | executor | task-failed : a task of the environment fails before the destroy is requested
 	// ... or a failing creation
-	FailStage string // "" | template | detector | deploy-fail | deploy-noagent | configure
+	FailStage string // "" | template | detector | deploy-fail | deploy-noagent | configure | hook (a critical hook fails at before_CONFIGURE)
+	// a critical call fails at weight FailW of before_CONFIGURE (FailStage hook) resp. before_START_ACTIVITY (Target ERROR) while
+	// another call, started at weight LateW <= FailW of the same moment, waits to be collected at weight AwaitW > FailW
+	HookFault            bool
+	LateW, FailW, AwaitW int
 }
 
 var hostNames = []string{"hosta", "hostb", "hostc"}
@@ -89,6 +93,14 @@ func run(c Case) (res vh.Result) {
 	for i, h := range c.Hooks {
 		fmt.Fprintf(&sb, "  - name: dh%d\n    call:\n      func: verifprobe.P(\"destroyhook:%d\")\n      trigger: %s%+d\n      timeout: 5s\n      critical: false\n", i, i, h.Trigger, h.Weight)
 	}
+	if c.HookFault {
+		ev := "START_ACTIVITY"
+		if c.FailStage == "hook" {
+			ev = "CONFIGURE"
+		}
+		fmt.Fprintf(&sb, "  - name: late\n    call:\n      func: verifprobe.P(\"late\")\n      trigger: before_%s%+d\n      await: before_%s%+d\n      timeout: 5s\n      critical: false\n", ev, c.LateW, ev, c.AwaitW)
+		fmt.Fprintf(&sb, "  - name: bad\n    call:\n      func: verifprobe.P(\"bad\")\n      trigger: before_%s%+d\n      timeout: 5s\n      critical: true\n", ev, c.FailW)
+	}
 	if c.PendingCall {
 		fmt.Fprintf(&sb, "  - name: pending\n    call:\n      func: verifprobe.P(\"pending\")\n      trigger: after_CONFIGURE\n      await: after_RESET\n      timeout: 5s\n      critical: false\n")
 	}
@@ -124,6 +136,9 @@ func run(c Case) (res vh.Result) {
 	destroyProbeViolation := ""
 	envId := ""
 	w.OnProbe = func(p simworld.ProbeRec) simworld.ProbeReply {
+		if p.Arg == "bad" {
+			return simworld.ProbeReply{Fail: "injected failure of a critical hook"}
+		}
 		if !strings.HasPrefix(p.Arg, "destroyhook:") {
 			return simworld.ProbeReply{}
 		}
@@ -304,7 +319,7 @@ func run(c Case) (res vh.Result) {
 		}
 	case "ERROR":
 		mu.Lock()
-		failStart = true
+		failStart = !c.HookFault // either a task refuses START or the critical hook at before_START_ACTIVITY fails
 		mu.Unlock()
 		w.Control(envId, pb.ControlEnvironmentRequest_START_ACTIVITY, 30*time.Second)
 		if st, ok := w.WaitState(envId, 5*time.Second, "ERROR"); !ok {
@@ -344,6 +359,9 @@ func run(c Case) (res vh.Result) {
 	}
 	if c.KeepTasks {
 		res.Classes = append(res.Classes, "keep-tasks")
+	}
+	if c.HookFault {
+		res.Classes = append(res.Classes, "critical-hook-failed-with-call-pending")
 	}
 	if c.PendingCall {
 		res.Classes = append(res.Classes, "pending-call")
@@ -435,7 +453,13 @@ func gen(t *rapid.T) Case {
 		c.Hooks = append(c.Hooks, DestroyHook{Trigger: rapid.SampledFrom([]string{"DESTROY", "after_DESTROY"}).Draw(t, "trigger"), Weight: rapid.IntRange(-2, 2).Draw(t, "weight")})
 	}
 	if rapid.IntRange(0, 3).Draw(t, "failing") == 0 {
-		c.FailStage = rapid.SampledFrom([]string{"template", "detector", "deploy-fail", "deploy-noagent", "configure"}).Draw(t, "stage")
+		c.FailStage = rapid.SampledFrom([]string{"template", "detector", "deploy-fail", "deploy-noagent", "configure", "hook"}).Draw(t, "stage")
+		if c.FailStage == "hook" {
+			c.HookFault = true
+			c.LateW = rapid.IntRange(-2, 1).Draw(t, "lateW")
+			c.FailW = rapid.IntRange(c.LateW, 2).Draw(t, "failW")
+			c.AwaitW = rapid.IntRange(c.FailW+1, 4).Draw(t, "awaitW")
+		}
 		if c.FailStage == "deploy-fail" || c.FailStage == "configure" || c.FailStage == "deploy-noagent" {
 			if c.NTasks < 2 {
 				c.NTasks = 2 // so that other tasks were launched for the environment
@@ -449,6 +473,12 @@ func gen(t *rapid.T) Case {
 	c.KeepTasks = rapid.IntRange(0, 3).Draw(t, "keep") == 0
 	c.KillRefused = rapid.IntRange(0, 9).Draw(t, "killRefused") == 0
 	c.PreFault = rapid.SampledFrom([]string{"", "", "", "executor", "task-failed"}).Draw(t, "preFault")
+	if c.Target == "ERROR" && rapid.Bool().Draw(t, "hookFault") {
+		c.HookFault = true
+		c.LateW = rapid.IntRange(-2, 1).Draw(t, "lateW")
+		c.FailW = rapid.IntRange(c.LateW, 2).Draw(t, "failW")
+		c.AwaitW = rapid.IntRange(c.FailW+1, 4).Draw(t, "awaitW")
+	}
 	return c
 }
 
@@ -467,6 +497,8 @@ func TestFixed(t *testing.T) {
 			Hooks: []DestroyHook{{"DESTROY", -1}, {"DESTROY", 0}, {"after_DESTROY", 1}}}, vh.Confirmed(run))
 		vh.Fixed(t, prop, "force-destroy-from-"+tg, Case{NTasks: 2, Target: tg, Force: true, Hooks: []DestroyHook{{"after_DESTROY", 0}}}, vh.Confirmed(run))
 	}
+	vh.Fixed(t, prop, "failed-creation-critical-hook-with-call-awaited-later", Case{NTasks: 2, FailStage: "hook", HookFault: true, LateW: 0, FailW: 0, AwaitW: 3}, vh.Confirmed(run))
+	vh.Fixed(t, prop, "destroy-after-critical-hook-failed-with-call-awaited-later", Case{NTasks: 2, Target: "ERROR", HookFault: true, LateW: -1, FailW: 1, AwaitW: 2, PendingCall: true}, vh.Confirmed(run))
 	vh.Fixed(t, prop, "keep-tasks", Case{NTasks: 2, Target: "CONFIGURED", KeepTasks: true}, vh.Confirmed(run))
 	vh.Fixed(t, prop, "executor-lost-then-forced-destroy-keeping-tasks", Case{NTasks: 3, Target: "RUNNING", Force: true, KeepTasks: true, PreFault: "executor"}, vh.Confirmed(run))
 	vh.Fixed(t, prop, "task-failed-then-destroy", Case{NTasks: 2, Target: "CONFIGURED", PreFault: "task-failed"}, vh.Confirmed(run))
